@@ -60,13 +60,22 @@ def _eq(a, b):
     return a == b
 
 
+def _hmac_key(key, name):
+    """RFC 2104 key preparation, which is part of HMAC's contract: a key longer than the block is replaced by
+    its hash, and every key is zero-padded to the block size - so k and k || 00 are THE SAME HMAC key"""
+    block = 128 if name in ("sha512", "sha384") else 64
+    if len(key) > block:
+        key = _Hash(name, key).digest() if name in _DIGEST_SIZE else key
+    return key + b"\x00" * (block - len(key))
+
+
 class _H:
     def __init__(self, key, msg, name):
-        self.key, self.msg, self.name = key, msg, name
         if name not in _DIGEST_SIZE:
             raise ValueError("unsupported hash type " + str(name))
+        self.key, self.msg, self.name = _hmac_key(key, name), msg, name
         self.digest_size = _DIGEST_SIZE[name]
-        self.block_size = 64
+        self.block_size = 128 if name in ("sha512", "sha384") else 64
 
     def update(self, m):
         self.msg = self.msg + m
